@@ -28,11 +28,11 @@ def run(ctx) -> None:
 
     def build():
         agg["a"] = GroupFacts(ctx.prog, "aggregate")
-        agg["w"] = GroupFacts(ctx.prog, "window")
     ctx.section("extract", build)
     if "a" not in agg:
         return
-    a, w = agg["a"], agg["w"]
+    a = agg["a"]
+    w = a          # Vector reductions are compared with aggregate's own aggregators
 
     def part():
         probs = a.partition_problems()
